@@ -95,6 +95,7 @@ func init() {
 			"ALL combinations for d<=2 (quick) / d<=3 (thorough), random combinations for d=4,5 (half of them run twice on the same application object); the error policy varies with the configuration; thorough additionally re-runs sampled combinations in child processes without any stub (real os.Exit), observing the flushed event log, " +
 			"the exit status and the panic on stderr. Oracle (DESIGN 3.6): exact event sequence, each hook at most once, exit exactly once, as the last event and with the status of the most recently raised Exit, " +
 			"the re-panicked value identical (pointer equality) to the most recently raised one, nil return otherwise. Configurations whose Action is absent are unclaimed (the library prints help instead) and only counted. " +
+			"Raised values: *PanicValue, an error, a runtime error, a string, an error with an ExitCode method, a []string (identity checked); one hook in five raises its value from a deferred call while the other kind (panic vs Exit) is already in flight. " +
 			"non-trivial = configuration with at least one raising hook; distinct by configuration.",
 		Assumptions: []string{
 			"in-process runs end a goroutine at the exit stub with runtime.Goexit, the closest model of 'the process ends here'; validated against real processes in the thorough tier",
